@@ -303,7 +303,7 @@ class G:
 
     SEMI = lambda self, err=None: [(";", ("D", "SEMI") + ((err,) if err else ()))]
 
-    def openstmt(self, d):
+    def openstmt(self, d, unterminated=False):
         first = self.otok(d)
         while first and first[0][0].startswith("*"):
             first = self.otok(d)
@@ -317,6 +317,8 @@ class G:
             if not nxt[0][0].startswith(("%", "&")):
                 plain_seen = True
             parts += self.gap(True) + nxt
+        if unterminated:
+            return parts
         return parts + self.gap() + self.SEMI()
 
     def cmt(self):
@@ -405,6 +407,10 @@ class G:
         p += self.gap() + self.SEMI()
         for _ in range(self.r.randint(0, 3)):
             p += self.gap() + self.item(d - 1)
+        if self.chance(3, 10):
+            # a body that ends in the middle of an open-code statement (a list of names, an expression):
+            # the text the macro generates continues in the caller's statement
+            p += self.gap() + self.openstmt(0, unterminated=True) + self.gap(True)
         p += self.gap() + self.T("%" + self.case("mend"))
         if self.chance(4, 10):
             p += self.gap(True) + self.T(self.uname())
